@@ -451,13 +451,18 @@ Proof.
   induction fuel as [|f IH]; intros st Hf; [lia|].
   cbn [scan_loop]. destruct (scan_token st) as [t st'] eqn:E.
   pose proof (scan_progress _ _ _ E) as [_ [_ [Hlt _]]].
-  destruct (tk t) eqn:Ek;
-    try (assert (Hne : tk t <> TEof) by (rewrite Ek; discriminate);
-         specialize (Hlt Hne);
-         destruct (IH st') as [l [t' [Hl [Ht' [Fl Ll]]]]]; [lia|];
-         exists (t :: l), t'; rewrite Hl; repeat split;
-         [exact Ht'|constructor; [exact Hne|exact Fl]|cbn; lia]).
-  exists [], t. repeat split; [exact Ek|constructor|cbn; lia].
+  assert (D : tk t = TEof \/ tk t <> TEof) by (destruct (tk t); auto; right; discriminate).
+  destruct D as [Ek|Hne].
+  - exists [], t.
+    assert (R : match tk t with TEof => [t] | _ => t :: scan_loop f st' end = [t])
+      by (rewrite Ek; reflexivity).
+    rewrite R. split; [reflexivity|split; [exact Ek|split; [constructor|cbn; lia]]].
+  - specialize (Hlt Hne).
+    destruct (IH st') as [l [t' [Hl [Ht' [Fl Ll]]]]]; [lia|].
+    exists (t :: l), t'.
+    assert (R : match tk t with TEof => [t] | _ => t :: scan_loop f st' end = t :: scan_loop f st')
+      by (destruct (tk t); try reflexivity; contradiction).
+    rewrite R, Hl. split; [reflexivity|split; [exact Ht'|split; [constructor; [exact Hne|exact Fl]|cbn; lia]]].
 Qed.
 
 Lemma chars_of_length : forall l, length (chars_of l) <= length l.
@@ -474,7 +479,8 @@ Proof.
   intros src. unfold scan_all.
   destruct (scan_loop_spec (length src + 2) (init_sstate src)) as [l [t [H1 [H2 [H3 H4]]]]].
   - cbn. pose proof (chars_of_length src). lia.
-  - exists l, t. repeat split; try assumption. cbn in H4. pose proof (chars_of_length src). lia.
+  - exists l, t. split; [exact H1|split; [exact H2|split; [exact H3|]]].
+    cbn in H4. pose proof (chars_of_length src). lia.
 Qed.
 
 (* the token list is finite and short *)
@@ -485,3 +491,164 @@ Proof.
 Qed.
 Print Assumptions scan_all_length.
 Print Assumptions scan_all_spec.
+
+(* ------------------------------------------------------------------ *)
+(* chars_of                                                             *)
+(* ------------------------------------------------------------------ *)
+Lemma chars_of_cons : forall b r,
+  chars_of (b :: r) =
+  match chars_of r with
+  | [] => [[b]]
+  | c :: cs => if starts_with_cont c then (b :: c) :: cs else [b] :: c :: cs
+  end.
+Proof. reflexivity. Qed.
+
+Lemma chars_of_concat_id : forall l, concat (chars_of l) = l.
+Proof.
+  induction l as [|b r IH]; [reflexivity|]. rewrite chars_of_cons.
+  destruct (chars_of r) as [|c cs]; [cbn in *; congruence|].
+  destruct (starts_with_cont c); cbn in *; congruence.
+Qed.
+
+Lemma chars_of_nonempty : forall l, nonempty_chars (chars_of l).
+Proof.
+  induction l as [|b r IH]; [constructor|]. rewrite chars_of_cons.
+  destruct (chars_of r) as [|c cs]; [repeat constructor; discriminate|].
+  inversion IH; subst.
+  destruct (starts_with_cont c); repeat constructor; try discriminate; assumption.
+Qed.
+
+(* the first character starts with the first byte *)
+Lemma chars_of_head : forall b r, exists t cs, chars_of (b :: r) = (b :: t) :: cs.
+Proof.
+  intros b r. rewrite chars_of_cons. destruct (chars_of r) as [|c cs]; [exists [], []; reflexivity|].
+  destruct (starts_with_cont c); [exists c, cs|exists [], (c :: cs)]; reflexivity.
+Qed.
+
+(* every character but the first starts with a non-continuation byte *)
+Lemma chars_of_tail_heads : forall l c cs, chars_of l = c :: cs ->
+  Forall (fun x => starts_with_cont x = false) cs.
+Proof.
+  induction l as [|b r IH]; intros c cs H; [discriminate|]. rewrite chars_of_cons in H.
+  destruct (chars_of r) as [|c' cs'] eqn:E.
+  - inversion H; subst. constructor.
+  - specialize (IH c' cs' eq_refl). destruct (starts_with_cont c') eqn:Ec; inversion H; subst.
+    + exact IH.
+    + constructor; assumption.
+Qed.
+
+Lemma nth_error_app_len : forall (A : Type) (a : list A) x r, nth_error (a ++ x :: r) (length a) = Some x.
+Proof. intros A a x r. induction a; cbn; auto. Qed.
+
+(* every split of chars_of src is at a char boundary of src (for ALL byte strings) *)
+Lemma chars_of_boundary : forall src pre rest,
+  chars_of src = pre ++ rest -> is_char_boundary src (clen pre) = true.
+Proof.
+  intros src pre rest H. destruct pre as [|p0 pre'].
+  { apply boundary_zero. }
+  destruct rest as [|c rest'].
+  { rewrite app_nil_r in H. unfold clen. rewrite <- H, chars_of_concat_id. apply boundary_len. }
+  pose proof (chars_of_tail_heads _ _ _ H) as F.
+  apply Forall_app in F. destruct F as [_ F]. inversion F as [|? ? Hc _]; subst.
+  pose proof (chars_of_nonempty src) as NE. rewrite H in NE.
+  apply Forall_app in NE. destruct NE as [NE1 NE2]. inversion NE2 as [|? ? Hne _]; subst.
+  destruct c as [|x t]; [contradiction|]. cbn in Hc.
+  assert (Hs : src = concat (p0 :: pre') ++ x :: (t ++ concat rest')).
+  { rewrite <- (chars_of_concat_id src), H, concat_app. cbn [concat]. rewrite <- app_assoc. reflexivity. }
+  unfold clen. unfold is_char_boundary.
+  destruct (length (concat (p0 :: pre'))) eqn:EL; [reflexivity|].
+  rewrite <- EL. rewrite Hs at 1. rewrite nth_error_app_len. rewrite Hc. reflexivity.
+Qed.
+
+(* ------------------------------------------------------------------ *)
+(* reachable scanner states                                             *)
+(* ------------------------------------------------------------------ *)
+Inductive reachable (src : list byte) : sstate -> Prop :=
+| reach_init : reachable src (init_sstate src)
+| reach_step : forall st t st', reachable src st -> scan_token st = (t, st') -> reachable src st'.
+
+Definition inv (src : list byte) (st : sstate) : Prop :=
+  (exists pre, chars_of src = pre ++ s_rest st /\ s_pos st = clen pre) /\ depth_ok st.
+
+Lemma reachable_inv : forall src st, reachable src st -> inv src st.
+Proof.
+  intros src st R. induction R as [|st t st' R IH H].
+  - split; [exists []; split; reflexivity|unfold depth_ok; cbn; unfold INTERPOLATION_DEPTH_MAX; lia].
+  - destruct IH as [[pre [Hc Hp]] Hd].
+    destruct (scan_token_spec _ _ _ H) as [start [ws m Hr Hs Hp' _ _ Hd' _]].
+    split; [|apply Hd'; exact Hd].
+    exists (pre ++ ws ++ m). split.
+    + rewrite Hc, Hr, <- !app_assoc. reflexivity.
+    + rewrite !clen_app. lia.
+Qed.
+
+(* current <= source.len() *)
+Theorem scan_pos_le_length : forall src st, reachable src st -> s_pos st <= length src.
+Proof.
+  intros src st R. destruct (reachable_inv _ _ R) as [[pre [Hc Hp]] _].
+  rewrite <- (chars_of_concat_id src) at 1. rewrite Hc, concat_app, app_length. unfold clen in Hp. lia.
+Qed.
+Print Assumptions scan_pos_le_length.
+
+(* the interpolation stack never exceeds INTERPOLATION_DEPTH_MAX *)
+Theorem interp_depth_bounded : forall src st,
+  reachable src st -> length (s_parens st) <= INTERPOLATION_DEPTH_MAX.
+Proof. intros src st R. apply (reachable_inv _ _ R). Qed.
+Print Assumptions interp_depth_bounded.
+
+(* the bound is reached *)
+Example interp_depth_reached :
+  exists st, reachable (bs """${""${""${""${""${""${""${""${") st /\ length (s_parens st) = 8.
+Proof.
+  eexists. split.
+  - do 8 (eapply reach_step; [|vm_compute; reflexivity]). apply reach_init.
+  - reflexivity.
+Qed.
+
+(* ------------------------------------------------------------------ *)
+(* slicing                                                              *)
+(* ------------------------------------------------------------------ *)
+(* &source[a..b]: None where Rust would panic *)
+Definition slice (s : list byte) (a b : nat) : option (list byte) :=
+  if Nat.leb a b && Nat.leb b (length s) && is_char_boundary s a && is_char_boundary s b
+  then Some (firstn (b - a) (skipn a s)) else None.
+
+Lemma firstn_skipn_mid : forall (A : Type) (a m r : list A),
+  firstn (length m) (skipn (length a) (a ++ m ++ r)) = m.
+Proof.
+  intros A a m r. rewrite skipn_app, skipn_all, Nat.sub_diag. cbn [skipn app].
+  rewrite firstn_app, firstn_all, Nat.sub_diag. cbn. apply app_nil_r.
+Qed.
+
+(* The slice `source[start..current]` taken by make_token exists for every token (both ends are
+   char boundaries and in range) and is the token's source for every token kind that is built by
+   make_token.  Holds for every byte string; for Rust only valid UTF-8 strings exist. *)
+Theorem scan_no_bad_slice : forall src st t start st',
+  reachable src st ->
+  scan_token_start st = (t, start, st') ->
+  exists lex, slice src start (s_pos st') = Some lex /\
+              (lexeme_token (tk t) = true -> tsource t = lex).
+Proof.
+  intros src st t start st' R H.
+  destruct (reachable_inv _ _ R) as [[pre [Hc Hp]] _].
+  destruct (scan_token_start_spec _ _ _ _ H) as [ws m Hr Hs Hp' _ _ _ Hlex].
+  exists (concat m). split; [|exact Hlex].
+  assert (H1 : chars_of src = (pre ++ ws) ++ (m ++ s_rest st')) by (rewrite Hc, Hr, <- app_assoc; reflexivity).
+  assert (H2 : chars_of src = (pre ++ ws ++ m) ++ s_rest st') by (rewrite Hc, Hr, <- !app_assoc; reflexivity).
+  pose proof (chars_of_boundary _ _ _ H1) as B1. pose proof (chars_of_boundary _ _ _ H2) as B2.
+  assert (E1 : start = clen (pre ++ ws)) by (rewrite clen_app; lia).
+  assert (E2 : s_pos st' = clen (pre ++ ws ++ m)) by (rewrite !clen_app; lia).
+  assert (Hsrc : src = concat (pre ++ ws) ++ concat m ++ concat (s_rest st')).
+  { rewrite <- (chars_of_concat_id src) at 1. rewrite H1, !concat_app. reflexivity. }
+  unfold slice. rewrite E2, E1, B1, B2.
+  assert (L1 : Nat.leb (clen (pre ++ ws)) (clen (pre ++ ws ++ m)) = true)
+    by (apply Nat.leb_le; rewrite !clen_app; lia).
+  assert (L2 : Nat.leb (clen (pre ++ ws ++ m)) (length src) = true).
+  { apply Nat.leb_le. rewrite Hsrc at 2. rewrite !app_length, !clen_app. unfold clen. rewrite concat_app, app_length. lia. }
+  rewrite L1, L2. cbn [andb]. f_equal.
+  replace (clen (pre ++ ws ++ m) - clen (pre ++ ws)) with (length (concat m))
+    by (rewrite !clen_app; unfold clen; lia).
+  unfold clen. rewrite Hsrc at 1. apply firstn_skipn_mid.
+Qed.
+Print Assumptions scan_no_bad_slice.
+
